@@ -4,6 +4,9 @@
 use crate::varint::{read_varint, write_varint};
 use anyhow::{Context, Result};
 use std::collections::{BTreeMap, HashMap};
+#[cfg(ragc_verif)]
+use crate::verif::File;
+#[cfg(not(ragc_verif))]
 use std::fs::File;
 use std::io::{BufReader, BufWriter, Read, Seek, SeekFrom, Write};
 use std::path::Path;
@@ -101,6 +104,14 @@ impl Archive {
             // Use 4MB buffer to batch writes and minimize syscalls
             // Default 8KB buffer causes ~200 syscalls for typical archives
             self.writer = Some(BufWriter::with_capacity(4 * 1024 * 1024, file.try_clone()?));
+            #[cfg(ragc_verif)]
+            {
+                // buffer capacity becomes a simulator knob (replaces the writer created above)
+                self.writer = Some(BufWriter::with_capacity(
+                    crate::verif::bufwriter_cap(),
+                    file.try_clone()?,
+                ));
+            }
             self.file = Some(file);
         }
         self.f_offset = 0;
